@@ -31,8 +31,9 @@ func stackAlphabet(cfg Cfg, withEvict bool) []wire.Op {
 		p(wire.Op{Kind: "get", Key: "b"})
 		p(wire.Op{Kind: "set", Key: "b", Val: "x", Flags: 5, TTL: 0})
 		p(wire.Op{Kind: "delete", Key: "b"})
-		p(wire.Op{Kind: "mget", Keys: []string{"a", "b"}, Quiet: []bool{false, false}})
-		p(wire.Op{Kind: "mget", Keys: []string{"a", "a"}, Quiet: []bool{false, false}})
+		// a multi-key get is one request: text "get a b"; binary GETQ* closed by GET or NOOP
+		p(wire.Op{Kind: "mget", Keys: []string{"a", "b"}, Quiet: []bool{bin, false}})
+		p(wire.Op{Kind: "mget", Keys: []string{"a", "a"}, Quiet: []bool{bin, false}})
 		if bin {
 			p(wire.Op{Kind: "mget", Keys: []string{"a", "b"}, Quiet: []bool{true, true}, NoopEnd: true})
 			p(wire.Op{Kind: "mget", Keys: []string{"b", "a"}, Quiet: []bool{true, false}})
@@ -85,7 +86,7 @@ func runC01(c *rt.Ctx) {
 			continue
 		}
 		alpha := stackAlphabet(cfg, false)
-		bo := BFSOpts{MaxDepth: depth, MaxValLen: maxLen}
+		bo := BFSOpts{MaxDepth: depth, MaxValLen: maxLen, Bubble: true}
 		st, tr, complete := BFS(c, "C01", cfg, alpha, bo)
 		if !complete && depth == 0 {
 			c.Cap("BFS incomplete for " + cfg.String())
